@@ -24,6 +24,7 @@ pub struct ChunkDeserializer {
     current_stage: ParseStage,
     current_payload: MessagePayload,
     current_payload_data: BytesMut,
+    partial_payloads: HashMap<u32, BytesMut>,
     buffer: BytesMut,
     previous_headers: HashMap<u32, ChunkHeader>,
 }
@@ -64,6 +65,7 @@ impl ChunkDeserializer {
             previous_headers: HashMap::new(),
             current_payload: MessagePayload::new(),
             current_payload_data: BytesMut::new(),
+            partial_payloads: HashMap::new(),
         }
     }
 
@@ -220,6 +222,13 @@ impl ChunkDeserializer {
                 Some(header) => header,
             },
         };
+
+        // Chunks of messages on different chunk streams may be interleaved, so continue with
+        // whatever part of a message has already been received on this chunk's stream.
+        self.current_payload_data = self
+            .partial_payloads
+            .remove(&csid)
+            .unwrap_or_else(BytesMut::new);
 
         let _ = self.buffer.split_to(next_index as usize);
         self.current_stage = ParseStage::InitialTimestamp;
@@ -411,6 +420,12 @@ impl ChunkDeserializer {
 
             let payload = mem::replace(&mut self.current_payload, MessagePayload::new());
             *message_to_return = Some(payload)
+        } else {
+            // The message isn't complete yet, so set what we have aside until the next chunk
+            // on this chunk stream arrives (chunks of other chunk streams may come first)
+            let data = mem::replace(&mut self.current_payload_data, BytesMut::new());
+            self.partial_payloads
+                .insert(self.current_header.chunk_stream_id, data);
         }
 
         // This completes the current chunk, so cycle the header into the map and start a new one
